@@ -5,6 +5,7 @@ import (
 	"go/token"
 	"go/types"
 	"os"
+	"runtime/debug"
 	"sort"
 	"strings"
 
@@ -862,6 +863,47 @@ func (w *World) deadPanic(p *ssa.Panic) (Status, string) {
 				}
 			}
 		}
+		// membership test in a constant package-level table (`v, ok := table[x.Op]; if ok`)?
+		if ex, ok := iff.Cond.(*ssa.Extract); ok && ex.Index == 1 {
+			if lk, ok := ex.Tuple.(*ssa.Lookup); ok && lk.CommaOk {
+				if cm := w.constMapLoad(lk.X); cm != nil {
+					idx := lk.Index
+					for {
+						if ct, ok := idx.(*ssa.ChangeType); ok {
+							idx = ct.X
+							continue
+						}
+						break
+					}
+					x := canonLoad(idx)
+					if _, have := res.consts[x]; !have {
+						if cs, ok := constsOf(idx); ok {
+							res = copyRes(res)
+							res.consts[x] = cs
+						}
+					}
+					if cs, have := res.consts[x]; have {
+						in, out := copyRes(res), copyRes(res)
+						anyIn := false
+						for k := range cs {
+							if cm.keys[k] {
+								delete(out.consts[x], k)
+								anyIn = true
+							} else {
+								delete(in.consts[x], k)
+							}
+						}
+						if anyIn {
+							walk(b.Succs[0], in, depth+1)
+						}
+						if len(out.consts[x]) > 0 {
+							walk(b.Succs[1], out, depth+1)
+						}
+						return
+					}
+				}
+			}
+		}
 		for _, s := range b.Succs {
 			walk(s, res, depth+1)
 		}
@@ -942,51 +984,56 @@ func ruleC04R2(w *World, r *Report) {
 
 func ruleC04R3(w *World, r *Report) {
 	const rule = "C04/R3"
-	r.rule(rule, "in the consumer files of package ast every index/slice instruction on a slice is dominated by a length test that covers it (or is a range element), and nodeSliceIndex is only called with the constant 0", 3)
+	r.rule(rule, "in the consumer files of package ast every index and slice expression is within bounds, for any tree: LEXBOUNDS (linear facts about lengths and indices, callees of the package followed in their calling context) proves 0 <= index < length at each of them; two loads of one field path are one value, because the consumers do not write the tree (C18/R7)", 40)
+	defer debug.SetGCPercent(debug.SetGCPercent(1000))
+	e := w.newLexBounds()
+	e.astScope = true
+	e.indexText(w.Ast, func(fname string) bool { return !strings.HasSuffix(fname, "options.go") })
+	e.trace = verboseRule() != "" && verboseRule() != "1" && strings.HasPrefix(rule, verboseRule())
+	var fns []*ssa.Function
 	for _, fn := range w.ModFns {
-		if fnPkgPath(fn) != modRoot+"/ast" {
+		if fnPkgPath(fn) != modRoot+"/ast" || fn.Parent() != nil || fn.Synthetic != "" || !e.inScope(fn) {
 			continue
 		}
-		file := w.fileOf(fn.Pos())
-		if strings.HasSuffix(file, "options.go") {
+		if fn.TypeParams().Len() > 0 && len(fn.TypeArgs()) == 0 {
 			continue
 		}
-		cnt := 0
-		for _, b := range fn.Blocks {
-			for _, in := range b.Instrs {
-				switch in := in.(type) {
-				case *ssa.IndexAddr:
-					if _, isArr := in.X.Type().Underlying().(*types.Pointer); isArr {
-						continue // element of a local array (varargs)
-					}
-					if _, isSlice := in.X.Type().Underlying().(*types.Slice); !isSlice {
-						continue
-					}
-					cnt++
-					construct := fmt.Sprintf("index %d in %s", cnt, funcName(fn))
-					if w.indexCovered(in) {
-						r.ok(rule, construct, w.pos(in.Pos()), "covered by a length test / loop bound on the same slice")
-					} else {
-						r.bad(rule, construct, w.pos(in.Pos()), "slice is indexed without a dominating length test: panics on an empty slice")
-					}
-				case *ssa.Call:
-					callee := in.Call.StaticCallee()
-					if callee != nil && callee.Origin() != nil && callee.Origin().Name() == "nodeSliceIndex" || (callee != nil && callee.Name() == "nodeSliceIndex") {
-						cnt++
-						construct := fmt.Sprintf("nodeSliceIndex call %d in %s", cnt, funcName(fn))
-						if k, ok := constInt(in.Call.Args[1]); ok && k == 0 {
-							r.ok(rule, construct, w.pos(in.Pos()), "index 0 (the helper guards len == 0)")
-						} else {
-							r.bad(rule, construct, w.pos(in.Pos()), "nodeSliceIndex guards only the empty slice; a non-zero index can be out of range")
-						}
-					}
-				}
+		fns = append(fns, fn)
+	}
+	// first the functions the outside can call (exported functions and methods); the unexported helpers are followed in
+	// the context of each of their calls, and interpreted on their own only when nothing of the package calls them
+	for pass := 0; pass < 2; pass++ {
+		for _, fn := range fns {
+			exported := token.IsExported(fn.Name()) || fn.Signature.Recv() != nil
+			if (pass == 0) != exported || e.visited[fn] {
+				continue
 			}
+			e.runRoot(fn, nil)
 		}
 	}
+	n := 0
+	for _, ob := range e.results() {
+		if ob.rule != "C03/R6" {
+			continue
+		}
+		n++
+		if ob.failed == 0 {
+			r.ok(rule, ob.construct, ob.where, fmt.Sprintf("proved in %d context(s)", ob.total))
+		} else {
+			var ds []string
+			for d := range ob.details {
+				ds = append(ds, d)
+			}
+			sort.Strings(ds)
+			r.bad(rule, ob.construct, ob.where, fmt.Sprintf("%d of %d context(s): %s", ob.failed, ob.total, strings.Join(ds, " | ")))
+		}
+	}
+	for _, nt := range uniqSorted(e.notes) {
+		r.undecided(rule, "engine limit: "+nt, "-", "the interpretation lost track here")
+	}
+	r.count("functions of package ast interpreted", len(e.visited))
 }
 
-// indexCovered: an IndexAddr s[i] is dominated by a test relating i (or a constant) to len(s).
 func (w *World) indexCovered(ia *ssa.IndexAddr) bool {
 	b := ia.Block()
 	sameSlice := func(v ssa.Value) bool {
